@@ -32,9 +32,19 @@ impl Parse for TypeWithPunctuatedMeta {
     }
 }
 
+/// A type that reaches the derive through a `$t:ty` fragment of a `macro_rules!` macro is wrapped in an invisible group.
+#[inline]
+pub(crate) fn ungroup(ty: &Type) -> &Type {
+    if let Type::Group(ty) = ty {
+        ungroup(ty.elem.as_ref())
+    } else {
+        ty
+    }
+}
+
 #[inline]
 pub(crate) fn dereference(ty: &Type) -> &Type {
-    if let Type::Reference(ty) = ty {
+    if let Type::Reference(ty) = ungroup(ty) {
         dereference(ty.elem.as_ref())
     } else {
         ty
@@ -43,7 +53,7 @@ pub(crate) fn dereference(ty: &Type) -> &Type {
 
 #[inline]
 pub(crate) fn dereference_changed(ty: &Type) -> (&Type, bool) {
-    if let Type::Reference(ty) = ty {
+    if let Type::Reference(ty) = ungroup(ty) {
         (dereference(ty.elem.as_ref()), true)
     } else {
         (ty, false)
